@@ -1266,6 +1266,115 @@ def cval2(t, env):
     return None
 
 
+def c5_promotion_rescan(fb, rep, f, clause):
+    """K13 coverage of the promotion re-scan.  A promoting pawn that moves straight away from the enemy king vacates the
+    square between the new piece and the king; the scan from the to-square stops at the pawn itself, so givesCheck
+    re-scans from the from-square.  A pawn moves along a file (push) or a diagonal (capture): the re-scan must grant the
+    check for file directions with queen / rook and for all four diagonals with queen / bishop - whatever the control
+    structure (switch arms, if-chains) - and for nothing else."""
+    wq, wr, wb, wn = (fb.const('Piece::' + n) for n in ('WQUEEN', 'WROOK', 'WBISHOP', 'WKNIGHT'))
+    empty = fb.const('Piece::EMPTY')
+    if None in (wq, wr, wb, wn, empty):
+        rep.broken(clause, 'piece enumerators not found')
+        return
+    names = {wq: 'Q', wr: 'R', wb: 'B', wn: 'N'}
+
+    def is_prom_guard(c, side):
+        c = strip_casts(c)
+        if not (isinstance(c, dict) and c.get('k') == 'bin' and c.get('op') in ('!=', '==')):
+            return False
+        l, r = strip_casts(c.get('l')), strip_casts(c.get('r'))
+        for x, y in ((l, r), (r, l)):
+            if is_call(x, 'Move::promoteTo') and isinstance(y, dict) and y.get('cv') == empty:
+                return (c['op'] == '!=') == bool(side)
+        return False
+    sites = []
+    for b, i, e in f.events():
+        if e.get('k') == 'ret' and (strip_casts(e.get('e')) or {}).get('cv') == 1:
+            guards = G.guard_trees(f, set(f.blocks), b)
+            if any(is_prom_guard(c, side) for c, side in guards):
+                sites.append((b, i, e, guards))
+    # the direction variable: third argument of the from-square scans that guard these sites
+    if rep.need(clause, sites, 'check grants of the promotion re-scan in givesCheck') is None:
+        return
+
+    sd_ = single_defs(f)
+
+    def tv(t, env, depth=0):
+        t = strip_casts(t)
+        if not isinstance(t, dict):
+            return None
+        if t.get('k') == 'var' and t.get('id') not in env and t.get('id') in sd_ and depth < 4:
+            return tv(sd_[t['id']], env, depth + 1)
+        if t.get('k') == 'un' and t.get('op') == '!':
+            x = tv(t.get('e'), env)
+            return None if x is None else (not x)
+        if t.get('k') == 'bin' and t.get('op') in ('&&', '||'):
+            a, b_ = tv(t.get('l'), env), tv(t.get('r'), env)
+            if t['op'] == '&&':
+                return False if (a is False or b_ is False) else (True if (a is True and b_ is True) else None)
+            return True if (a is True or b_ is True) else (False if (a is False and b_ is False) else None)
+        if t.get('k') == 'bin' and t.get('op') in ('==', '!=', '<', '>', '<=', '>='):
+            def val(x):
+                x = strip_casts(x)
+                if isinstance(x, dict) and 'cv' in x:
+                    return x['cv']
+                if isinstance(x, dict) and x.get('k') == 'var' and x.get('id') in env:
+                    return env[x['id']]
+                if isinstance(x, dict) and x.get('k') == 'un' and x.get('op') == '-':
+                    v_ = val(x.get('e'))
+                    return None if v_ is None else -v_
+                return None
+            a, b_ = val(t.get('l')), val(t.get('r'))
+            if a is None or b_ is None:
+                return None
+            return {'==': a == b_, '!=': a != b_, '<': a < b_, '>': a > b_, '<=': a <= b_, '>=': a >= b_}[t['op']]
+        return None
+    covered = set()
+    for b, i, e, guards in sites:
+        dvars, pvars = set(), set()
+        for c, side in guards:
+            for n in walk(c):
+                if n.get('k') == 'call' and cname(n) == 'MoveGen::nextPiece' and len(n.get('args', [])) >= 3:
+                    d_ = strip_casts(n['args'][2])
+                    if isinstance(d_, dict) and d_.get('k') == 'var':
+                        dvars.add(d_['id'])
+                if n.get('k') == 'bin' and n.get('op') == '==':
+                    for x, y in ((n.get('l'), n.get('r')), (n.get('r'), n.get('l'))):
+                        x, y = strip_casts(x), strip_casts(y)
+                        if isinstance(x, dict) and x.get('k') == 'var' and isinstance(y, dict) and y.get('cv') in names and 'Piece' in str(y.get('t', '')) + str(y.get('q', '')) + str(y.get('n', '')):
+                            pvars.add(x['id'])
+        sws = dominating_switches(f, b)
+        for d in sorted(ROOK_DIRS | BISHOP_DIRS):
+            for q in names:
+                env = {}
+                for v_ in dvars:
+                    env[v_] = d
+                for v_ in pvars:
+                    env[v_] = q
+                feas = bool(dvars)
+                for c, side in guards:
+                    r_ = tv(c, env)
+                    if r_ is not None and r_ != bool(side):
+                        feas = False
+                for sw in sws:
+                    scr = strip_casts((f.blocks[sw].get('term') or {}).get('cond'))
+                    labels = switch_labels(f, sw, b)
+                    if isinstance(scr, dict) and scr.get('k') == 'var' and scr.get('id') in env and 'default' not in labels and env[scr['id']] not in labels:
+                        feas = False
+                if feas:
+                    covered.add((d, names[q]))
+    need = {(d, x) for d in (8, -8) for x in 'QR'} | {(d, x) for d in BISHOP_DIRS for x in 'QB'}
+    allowed = {(d, x) for d in ROOK_DIRS for x in 'QR'} | {(d, x) for d in BISHOP_DIRS for x in 'QB'}
+    miss = sorted(need - covered)
+    pawn_dirs = {8, -8} | BISHOP_DIRS          # the block is entered with the direction of the pawn move itself
+    extra = sorted(x for x in covered - allowed if x[0] in pawn_dirs)
+    rep.ob(clause, 'K13 coverage', 'givesCheck: the promotion re-scan grants the check along the file for queen / rook and along all four diagonals for queen / bishop', not miss,
+           R.site(f, sites[0][2]), '%d grant site(s); missing (direction, piece): %s' % (len(sites), miss), f.sname)
+    rep.ob(clause, 'K13 coverage', 'givesCheck: the promotion re-scan grants no check to a piece that does not move in the scanned direction', not extra,
+           R.site(f, sites[0][2]), 'granted outside the slider table: %s' % extra, f.sname)
+
+
 def c5_gives_check(fb, rep):
     clause = 'C01.5'
     f = fb.find1('MoveGen::givesCheck')
@@ -1277,7 +1386,7 @@ def c5_gives_check(fb, rep):
     others = [g for g in fb.funcs.values() if g.has_cfg and g.key != f.key and g.sname != 'MoveGen::nextPiece' and
               any(e.get('k') == 'call' and cname(e) == 'MoveGen::nextPiece' for _, _, e in g.events())]
     rep.ob(clause, 'K5 who-may-call', 'the unbounded ray scan nextPiece is used only by givesCheck', not others, f.where, 'other callers: %s' % [g.sname for g in others], f.sname)
-    rep.floor(clause, 'unbounded ray scans', len(scans), 8)
+    rep.floor(clause, 'unbounded ray scans', len(scans), 5)
     row_sites = []
     for b, i, e in scans:
         guards = G.guard_trees(f, set(f.blocks), b)
@@ -1381,7 +1490,8 @@ def c5_gives_check(fb, rep):
                     cls, sorted(labels, key=str), sw_ord[sw], 'moving piece' if is_call(xdef, 'Piece::makeWhite') else 'piece behind the line', colour, letter),
                     letter in allowed and col_ok, '%s:%s' % (f.file, t.get('ln')),
                     'allowed pieces %s' % sorted(allowed), f.sname)
-    rep.floor(clause, 'slider comparisons inside direction switches', n_cmp, 20)
+    rep.floor(clause, 'slider comparisons inside direction switches', n_cmp, 12)
+    c5_promotion_rescan(fb, rep, f, clause)
     for sw, d in sorted(per_switch.items()):
         ln = f.blocks[sw]['term'].get('ln')
         rl = d.get('labels:rook', set())
